@@ -80,6 +80,21 @@ SPECS = [
          ],
          raises={'*': {'ensures': ["raised('h1') or raised('h2') or (ext_count() == 2 and ext_raised(1))"]}},
          serves=['C09'], no_fresh=True),
+    dict(id='S-MacroBody-slot-define', fname='render_m',
+         # the statements of a define-slot element belong to its DEFAULT content: when the caller fills
+         # the slot the element is replaced as a whole -- its tal:define is not evaluated and the filler
+         # runs in the scope the slot element itself would have been entered with
+         text='A<m metal:define-macro="m"><d metal:define-slot="s" tal:define="a e1">%s</d></m>B' % H1,
+         own_names=['a'],
+         ensures=[
+             "local('__slot_s') is not None or (evals(1) == 1 and holes(1) == 1)",
+             "local('__slot_s') is None or (evals(1) == 0 and holes(1) == 0 and ext_count() == 2 "
+             " and ext_callee(1) is ext_result(0) and is_scope_copy(ext_arg(1, 1)) "
+             " and scope_arg_visible(ext_arg(1, 1), 'a') is visible0('a'))",
+             "visible('a') is visible0('a')",
+         ],
+         raises={'*': {'ensures': ["raised('e1') or raised('h1') or (ext_count() == 2 and ext_raised(1))"]}},
+         serves=['C09', 'C05'], no_fresh=True),
 ]
 
 CONTRACTS = schema_contracts(SPECS)
